@@ -60,6 +60,65 @@ def work(tasks, idx):
     return res
 
 
+def small_modulus_sweep(res, hierarchy=False, flip=False):
+    """Stored RSA keys too small for the hash their algorithm names (PS512 under a 512..520-bit modulus, PS384 under < 393 bits,
+    PS256 under < 265 bits, and their PKCS#1 v1.5 counterparts): no octet string is a valid signature under such a key, so whatever
+    is presented must be refused. Such keys cannot be generated with the crypto library but load from a COSE key all the same.
+    Deterministic; judged by the property alone (nothing to sign with, so no accepted original exists)."""
+    import cbor2
+    import hashlib
+    from .. import cases
+    signer = [c for c in _auth.creds() if core.key_kind(c.priv) == "rsa"][0]
+    a0, e0, _ = faults.build_assertion(signer, flags=core.UP | core.UV)
+    algs = {"PS256": core.PS256, "PS384": core.PS384, "PS512": core.PS512, "RS256": core.RS256, "RS384": core.RS384, "RS512": core.RS512}
+    for name, alg in algs.items():
+        h = int(name[2:])
+        for bits in sorted({h - 8, h, h + 1, h + 8, h + 9, h + 16, h + 17, 2 * h + 16, 2 * h + 17, 512, 513, 520, 521, 528, 768}):
+            if bits < 64:
+                continue
+            fill = int.from_bytes(hashlib.shake_256(b"n-%d-%d" % (alg, bits)).digest((bits + 7) // 8), "big")
+            n = (fill % (1 << bits)) | (1 << (bits - 1)) | 1
+            nb = n.to_bytes((bits + 7) // 8, "big")
+            key = cbor2.dumps({1: 3, 3: alg, -1: nb, -2: b"\x01\x00\x01"})
+            L = len(nb)
+            sigs = [bytes(L), (1).to_bytes(L, "big"), (n - 1).to_bytes(L, "big"), hashlib.shake_256(nb).digest(L)[:L - 1] + b"\x01",
+                    b"", a0["signature"][:L]]
+            sigs[3] = (int.from_bytes(sigs[3], "big") % n).to_bytes(L, "big")
+            for sig in sigs:
+                a, e = dict(a0, signature=sig), dict(e0, public_key=key)
+                code = cases.run_auth(a, e)
+                res.evaluations += 1
+                res.count("small-modulus:" + corr.kind(code))
+                res.nontrivial.add(("small-modulus", name, bits, sig[:4]))
+                if hierarchy:
+                    # C19's reading: the response is well-formed and is refused because no signature verifies - a semantic
+                    # rejection, which must come from the library's hierarchy
+                    if code["k"] == "reject" and "nonlib" in code:
+                        res.violations.append({"why": f"well-formed assertion refused against a stored {name} key with a {bits}-bit modulus by "
+                                                      f"{code['nonlib']}: {str(code.get('msg'))[:100]} (not a WebAuthnException)",
+                                               "case": cases.auth_case(a, e), "code": code,
+                                               "match": {"op": "verify_auth", "rule": "library-exception", "fault": "A.key-too-small-for-hash",
+                                                         "exception": code["nonlib"], "scheme": name[:2]}})
+                elif flip:
+                    # C06's reading: if such a response is accepted at all, a single-bit change of signed material must undo that
+                    if code["k"] == "accept" and sig:
+                        for where in ("signature", "auth_data"):
+                            buf = bytearray(a[where] if where == "signature" else a["authenticator_data"])
+                            buf[-1] ^= 1
+                            a2 = dict(a, **{("signature" if where == "signature" else "authenticator_data"): bytes(buf)})
+                            c2 = cases.run_auth(a2, e)
+                            res.evaluations += 1
+                            if c2["k"] == "accept":
+                                res.violations.append({"why": f"accepted assertion (stored {name} key, {bits}-bit modulus) stays accepted after flipping "
+                                                              f"the last bit of its {where}", "case": cases.auth_case(a2, e), "original": cases.auth_case(a, e),
+                                                       "match": {"op": "verify_auth", "flip": where, "fault": "A.key-too-small-for-hash"}})
+                elif code["k"] == "accept":
+                    res.violations.append({"why": f"assertion accepted against a stored {name} key with a {bits}-bit modulus, under which no "
+                                                  f"signature can verify (presented signature: {sig.hex()[:40]}...)",
+                                           "case": cases.auth_case(a, e), "code": code,
+                                           "match": {"op": "verify_auth", "fault": "A.key-too-small-for-hash", "alg": name, "bits": bits}})
+
+
 def run(ctx, res):
     rng = ctx.rng
     ncreds = len(_auth.creds())
@@ -77,6 +136,7 @@ def run(ctx, res):
                 tasks.append((ci, pair, rng.randrange(30)))
     work.driver_ok = ctx.driver_ok
     corr.merge(res, corr.parallel(work, tasks))
+    small_modulus_sweep(res)
     res.rule = ("authenticator/client simulator with real keys x fault catalogue (27 named deviations, each re-signed): per "
                 "credential algorithm 1 valid + every single fault + random subsets (thorough: all pairs); distinct = "
                 "(credential algorithm, fault set, client-data/origin/policy variant); every case is non-trivial (validly signed)")
